@@ -1,4 +1,5 @@
 import SigpyVerif.Props.C01Leaves
+import SigpyVerif.Props.C01MatMul
 import SigpyVerif.Props.C04
 import SigpyVerif.Lemmas.C01Block
 /-
@@ -182,6 +183,22 @@ theorem b2a_leaf_adjoint (hreal : ∀ r, star (ofRat r) = ofRat r) (osh blk str 
       refine (updToEnt_perm ofRat _ _ hperm).trans ?_
       rw [updToEnt_swap, updToEnt_adj ofRat hreal]
 
+/-! ### leaves imported from other properties -/
+
+/-- a leaf given by the entries `E` of a class and the entries `E'` of the class its `_adjoint_linop`
+    returns (Props/C01Ext.lean builds these from the C08 / C05 models through the generated pairing
+    table) pairs with its adjoint as soon as the two entry lists are adjoint matrices -/
+theorem ext_leaf_adjoint (t : Nat) (osh ish : List Int) (E E' : List (Ent α))
+    (h : IsAdj (shapeProd osh).toNat (shapeProd ish).toNat
+      (inRangeE (shapeProd osh).toNat (shapeProd ish).toNat E)
+      (inRangeE (shapeProd ish).toNat (shapeProd osh).toNat E')) :
+    AdjOK ofRat (.leaf (.ext t osh ish E E' : Leaf α)) := by
+  intro s hs
+  simp only [denote, leafSem, leafSem0, Option.map_some, Option.some.injEq] at hs
+  subst hs
+  refine ⟨Sem.clip ⟨ish, osh, E'⟩, ?_, rfl, rfl, h⟩
+  simp only [adj, adjLeaf, denote, leafSem, leafSem0, Option.map_some]
+
 /-! ### the unconditional theorem -/
 /-- leaf classes (with their validity conditions on the parameters) whose pairing with
     `_adjoint_linop` is proved in Lean at the entry level -/
@@ -203,7 +220,12 @@ def LeafProved : Leaf α → Prop
   | .gridding _ _ _ _ _ => True
   | .transpose _ _ => True
   | .multiply ish msh _ _ => MulValid ish msh
-  | _ => False
+  | .matmul ish msh _ _ => MulValid ish msh
+  | .rmatmul ish msh _ _ => MulValid ish msh
+  | .ext _ osh ish E E' =>
+      IsAdj (shapeProd osh).toNat (shapeProd ish).toNat
+        (inRangeE (shapeProd osh).toNat (shapeProd ish).toNat E)
+        (inRangeE (shapeProd ish).toNat (shapeProd osh).toNat E')
 
 theorem leafProved_adjOK (hreal : ∀ r, star (ofRat r) = ofRat r) (l : Leaf α) (hl : LeafProved l) :
     AdjOK ofRat (.leaf l) := by
@@ -221,10 +243,13 @@ theorem leafProved_adjOK (hreal : ∀ r, star (ofRat r) = ofRat r) (l : Leaf α)
   · exact slice_leaf_adjoint ofRat _ _
   · exact embed_leaf_adjoint ofRat _ _
   · exact multiply_leaf_adjoint ofRat _ _ _ _ hl
+  · exact matmul_leaf_adjoint ofRat _ _ _ _ hl
+  · exact rmatmul_leaf_adjoint ofRat _ _ _ _ hl
   · exact a2b_leaf_adjoint ofRat hreal _ _ _ hl
   · exact b2a_leaf_adjoint ofRat hreal _ _ _ hl
   · exact interp_leaf_adjoint ofRat hreal _ _ _ _ _
   · exact gridding_leaf_adjoint ofRat hreal _ _ _ _ _
+  · exact ext_leaf_adjoint ofRat _ _ _ _ _ hl
 
 /-- **Unconditional `adj_denote`.**  For every expression tree built with Compose, Add, Conj,
     Hstack, Vstack, Diag over the leaf classes of `LeafProved` with valid parameters, whenever the
@@ -267,6 +292,16 @@ example : ((denote (α := ℤ) star (fun r => r.num) (.leaf (.multiply [2, 1] [3
 example : ((denote (α := ℤ) star (fun r => r.num) (adj star (.leaf (.multiply [2, 1] [3] [5, 6, 7] true)))).map
     fun s => (s.osh, s.ish, s.E.length)) = some ([2, 1], [2, 3], 6) := by decide +kernel
 example : DSValid [6, 4] [2, 1] [1, 0] := by simp [DSValid]
+/-- a tree with a broadcasting MatMul (matrix batch 3 against input batch 1: the adjoint sums over axis 0)
+    and a RightMatMul with the larger rank on the input side is covered -/
+example : allLeaves (α := α) LeafProved
+    (.comp (.leaf (.rmatmul [3, 2, 4] [4, 2] (List.replicate 8 1) false))
+      (.leaf (.matmul [1, 3, 4] [3, 2, 3] (List.replicate 18 2) true))) := by
+  simp [allLeaves, LeafProved, MulValid]
+example : ((denote (α := ℤ) star (fun r => r.num) (.leaf (.matmul [1, 3, 2] [2, 2, 3] [1, 2, 3, 4, 5, 6, 7, 8, 9, 10, 11, 12] false))).map
+    fun s => (s.osh, s.ish, s.E.length)) = some ([2, 2, 2], [1, 3, 2], 24) := by decide +kernel
+example : ((denote (α := ℤ) star (fun r => r.num) (adj star (.leaf (.matmul [1, 3, 2] [2, 2, 3] [1, 2, 3, 4, 5, 6, 7, 8, 9, 10, 11, 12] false)))).map
+    fun s => (s.osh, s.ish, s.E.length)) = some ([1, 3, 2], [2, 2, 2], 24) := by decide +kernel
 example : AxValid (normAxes [-1, 0] 2) 2 := by unfold AxValid; decide
 end
 end SigpyVerif.C01
